@@ -86,8 +86,8 @@ func cacheMain(s *simrt.Sim, info *harness.RunInfo) {
 	storeHdr := s.Chance(400)
 	cacheCtl := s.Chance(200)
 	useNext := s.Chance(250)
-	npaths := s.Range(1, 4)
-	nclients := s.Range(2, 6)
+	npaths := s.Range(1, harness.Scale(4, 6))
+	nclients := s.Range(2, harness.Scale(6, 9))
 	preempt := simrt.PickS(s, 150, 0, 50, 400)
 	phase := s.Draw(1000)
 
@@ -180,7 +180,7 @@ func cacheMain(s *simrt.Sim, info *harness.RunInfo) {
 	thinks := []int{0, 300, 900, E * 1000, E*1000 + 1500, 2500}
 	ctypes := []string{"text/plain", "application/json", "text/html; charset=utf-8"}
 	for ci := range plans {
-		n := s.Range(1, 10)
+		n := s.Range(1, harness.Scale(10, 16))
 		for j := 0; j < n; j++ {
 			op := &cacheOp{id: len(ops), client: ci, method: simrt.PickS(s, "GET", "GET", "GET", "HEAD", "POST"),
 				path: "/p" + strconv.Itoa(s.Draw(npaths)), wantStatus: 200, expS: E}
